@@ -316,6 +316,45 @@ func runC18(c *run.Ctx) {
 				v = []interface{}{s, map[string]interface{}{"k": s}}
 			}
 			feats["invalid-utf8"] = true
+		} else if i%60 == 31 {
+			// many containers in ONE value: a long list of small records, a map of many lists, a long run of empty containers,
+			// a narrow value nested many levels down (what a reader counts per parse must be depth, not volume)
+			m := 60 + r.Intn(240)
+			switch r.Intn(4) {
+			case 0:
+				l := make([]interface{}, 0, m)
+				for k := 0; k < m; k++ {
+					l = append(l, map[string]interface{}{"id": int64(k), "tags": []interface{}{ggql.Symbol("A"), c18String(r)}})
+				}
+				v = l
+			case 1:
+				mm := map[string]interface{}{}
+				for k := 0; k < m; k++ {
+					mm[fmt.Sprintf("k%d", k)] = []interface{}{int64(k)}
+				}
+				v = mm
+			case 2:
+				l := make([]interface{}, 0, m)
+				for k := 0; k < m; k++ {
+					if k%2 == 0 {
+						l = append(l, []interface{}{})
+					} else {
+						l = append(l, map[string]interface{}{})
+					}
+				}
+				v = l
+			default:
+				var cur interface{} = c18Value(r, 1, feats)
+				for k := 0; k < 20+m/4; k++ {
+					if k%2 == 0 {
+						cur = []interface{}{cur}
+					} else {
+						cur = map[string]interface{}{"d": cur, "n": int64(k)}
+					}
+				}
+				v = cur
+			}
+			feats["many-containers-in-one-value"] = true
 		} else {
 			v = c18Value(r, 1+r.Intn(4), feats)
 		}
